@@ -67,6 +67,16 @@ def apply_step(ddf, step, st_):
         drop = step.get("drop", True)  # drop=False keeps the key as a column next to the index of the same name
         if mode == "quantile":
             out = ddf.set_index(col, drop=drop, npartitions=step.get("npartitions"), shuffle_method=step.get("method", "tasks"))
+            k = step.get("npartitions")
+            if k is not None and k > 1 and k != ddf.npartitions:
+                # signature flag only: an explicit npartitions=k other than the input's partition count was asked for
+                # and the set_index was nevertheless lowered WITHOUT a shuffle (blockwise on the input partitions)
+                try:
+                    names = {type(e).__name__ for e in out.optimize(fuse=False).expr.walk()}
+                    if "SetIndexBlockwise" in names:
+                        st_["npartitions_blockwise"] = True
+                except Exception:  # noqa: BLE001
+                    pass
         elif mode == "divisions":
             d = C.division_vector(pd.Index(sorted(vals)), step.get("pos", []), step.get("lo", 0), step.get("hi", 0))
             out = ddf.set_index(col, drop=drop, divisions=d, shuffle_method=step.get("method", "tasks"))
@@ -267,6 +277,12 @@ def check(spec):
                 # Counted so that the evidence shows how often it happens.
                 count("step-raised:" + opname)
                 continue
+            if getattr(nxt, "_name", None) == cur._name:
+                # the step returned the very same expression (e.g. set_index(sort=False) on the column the frame is
+                # already indexed by): nothing was built, so it must not appear in the signature (prev / diverged_on
+                # have to name the step that really produced the expression a later step is applied to)
+                count("step-noop:" + opname)
+                continue
             cur = nxt
             applied.append(opname)
             if not diverged:
@@ -283,7 +299,10 @@ def check(spec):
                 # sig: the step, and whether npartitions over- or under-states the division vector
                 ensure(cur.npartitions == len(reported) - 1, f"after {' -> '.join(applied)}: npartitions={cur.npartitions} but divisions {short(reported)}", "npartitions-vs-divisions", op=opname,
                        npartitions="more-than-divisions" if cur.npartitions > len(reported) - 1 else "fewer-than-divisions",
-                       after_partitions="partitions" in applied[:-1])
+                       after_partitions="partitions" in applied[:-1],
+                       # (as in the final signature: the first step, if any, at which the reported divisions stopped
+                       # being those of the optimized expression - a later count mismatch is a consequence of it)
+                       divisions_differ_after_optimize=diverged, diverged_on=diverged_on)
         if not applied:
             raise Reject("no applicable step")
         what = f"source divisions {short(ddf.divisions, 100)} -> {' -> '.join(applied)}"
@@ -297,7 +316,9 @@ def check(spec):
                    # a head/tail result (a Head/Tail expression) is the input of later steps
                    head_tail_then_more=any(a in ("head", "tail") for a in applied[:-1]),
                    # ... and a set_index(drop=False) was applied (the key stays a column of the frame)
-                   set_index_keep_column=bool(st_.get("kept_column")))
+                   set_index_keep_column=bool(st_.get("kept_column")),
+                   # a set_index(col, npartitions=k), k != partition count of its input, was lowered without a shuffle
+                   set_index_npartitions_blockwise=bool(st_.get("npartitions_blockwise")))
         known = C.divisions_known(cur.divisions)
         if not known:
             # C41 speaks about frames that report known divisions ((nan, nan) of an empty set_index counts as unknown)
